@@ -198,8 +198,19 @@ def parse_at_offset(data: bytes, want_delim: bool):
 def probe_sources(data: bytes, want_delim: bool, want_events):
     """The same bytes through file objects whose first look at the stream is awkward (short first reads, look-ahead
     that shows < 3 bytes, a buffer with 1-2 bytes left).  -> (name, detected, problem) of the first one that differs."""
+    import shutil
+    import tempfile
+
     from .. import sources
-    for name, make in sources.header_probe_sources(data):
+    tmpdir = tempfile.mkdtemp(prefix="rv-c08-")
+    try:
+        return _probe(sources.header_probe_sources(data) + sources.compressed_file_sources(data, tmpdir), want_delim, want_events)
+    finally:
+        shutil.rmtree(tmpdir, ignore_errors=True)
+
+
+def _probe(factories, want_delim: bool, want_events):
+    for name, make in factories:
         f = make()
         try:
             opts, _frames = get_options_and_frames(f)
@@ -217,7 +228,7 @@ def probe_sources(data: bytes, want_delim: bool, want_events):
     return None
 
 
-N_PROBE_SOURCES = 24
+N_PROBE_SOURCES = 27
 
 
 def judge_pair(desc, first_rows, rest_rows):
